@@ -60,6 +60,36 @@ Erase(a) ==
                            args |-> [i \in 1..Len(a.args) |-> Erase(a.args[i])]]
       [] OTHER -> a
 
+(* ---------------------------------------------------------------------- *)
+(* Canon: the tree a text denotes, in the form parse results are compared  *)
+(* in - parentheses erased, numeric literals by value (a percent sign      *)
+(* written directly after a literal is part of the literal), $ flags and   *)
+(* the leading @ dropped                                                   *)
+(* ---------------------------------------------------------------------- *)
+RECURSIVE Canon(_)
+Canon(a) ==
+    CASE a.k = "num" -> [k |-> "num", v |-> LitValue(a.txt)]
+      [] a.k = "paren" -> Canon(a.x)
+      [] a.k = "bin" -> [k |-> "bin", op |-> a.op, l |-> Canon(a.l), r |-> Canon(a.r)]
+      [] a.k = "neg" -> [k |-> "neg", x |-> Canon(a.x)]
+      \* a percent sign written directly after a numeric literal is part of the literal; after anything else
+      \* (a parenthesis included) it is the postfix operator
+      [] a.k = "pct" -> LET x == Canon(a.x) IN
+                        IF a.x.k = "num" THEN [k |-> "num", v |-> IF x.v.t = "num" THEN RDiv(x.v, Whole(100)) ELSE Open]
+                        ELSE [k |-> "pct", x |-> x]
+      [] a.k = "call" -> [k |-> "call", f |-> a.f, at |-> FALSE, args |-> [i \in 1..Len(a.args) |-> Canon(a.args[i])]]
+      [] a.k = "ref" -> [a EXCEPT !.ac = FALSE, !.ar = FALSE]
+      [] a.k = "range" -> [a EXCEPT !.a1 = FALSE, !.b1 = FALSE, !.a2 = FALSE, !.b2 = FALSE]
+      [] OTHER -> a
+
+RECURSIVE HasOpen(_)
+HasOpen(a) ==
+    CASE a.k = "num" -> a.v.t # "num"
+      [] a.k = "bin" -> HasOpen(a.l) \/ HasOpen(a.r)
+      [] a.k \in {"neg", "pct"} -> HasOpen(a.x)
+      [] a.k = "call" -> \E i \in 1..Len(a.args) : HasOpen(a.args[i])
+      [] OTHER -> FALSE
+
 RECURSIVE Size(_)
 RECURSIVE SumSizes(_)
 SumSizes(xs) == IF Len(xs) = 0 THEN 0 ELSE Size(xs[1]) + SumSizes(Tail(xs))
